@@ -229,6 +229,34 @@ fn embedded_bases() -> Vec<(u16, u8, Vec<u8>)> {
     out
 }
 
+/// The same promise through `Frame::read`, with history: a read that FAILS after consuming a partial line (the
+/// stream breaks with a hard error), then, on the same thread, a read of a damaged line. The second read must give
+/// an error or exactly the original frame — leftovers of the failed read must not complete the damaged line.
+pub fn check_read_after_failed_read(prefix: &[u8], orig: (u16, u8, &[u8]), damaged_line: &[u8]) -> Option<(&'static str, String, String)> {
+    use crate::devices::{new_log, RAns, ScriptIo};
+    let (addr, typ, data) = (orig.0, orig.1, orig.2.to_vec());
+    let (prefix, damaged_line) = (prefix.to_vec(), damaged_line.to_vec());
+    crate::util::in_fresh_thread(move || {
+        let log = new_log();
+        let mut first = ScriptIo::new(prefix.clone(), log.clone());
+        first.at_end = RAns::Fail(std::io::ErrorKind::TimedOut);
+        let r1 = catch(|| Frame::read(&mut first).is_ok());
+        let mut second = ScriptIo::new(damaged_line.clone(), log);
+        let r2 = catch(|| Frame::read(&mut second));
+        match (r1, r2) {
+            (Err(p), _) | (_, Err(p)) => Some(("no-panic", p.class(), format!("Frame::read panicked: {}", p.message))),
+            (Ok(_), Ok(Err(_))) => None,
+            (Ok(_), Ok(Ok(f))) => {
+                if f.address() == Address(addr) && f.message_type() == MsgType(typ) && f.data().as_ref() == &data[..] {
+                    None
+                } else {
+                    Some(("damaged-not-misdecoded", "read-after-failed-read:accepted-as-other".into(), format!("after a read that failed on the partial line {}, reading the damaged line {} returned a different frame {:?}", show_bytes(&prefix), show_bytes(&damaged_line), f)))
+                }
+            }
+        }
+    })
+}
+
 fn case_json(orig: (u16, u8, &[u8]), damaged: &[u8], strict: bool, kind: &str) -> Value {
     json!({"kind": "damaged", "addr": orig.0, "type": orig.1, "data": hex(orig.2), "damage": kind, "wire": hex(damaged), "wire_shown": show_bytes(damaged), "strict": strict})
 }
@@ -238,7 +266,7 @@ pub fn run(ctx: &Ctx) -> Report {
     let thorough = ctx.tier.thorough();
     let bases = base_frames(thorough, ctx.seed);
     rep.rule = "for every base frame and both encodings: every single substitution (255 per position), deletion, duplication, unequal adjacent transposition and proper prefix, \
-                plus every wrong length-field value (checksum made consistent) and every wrong checksum value; a damaged string is non-trivial when it still has the documented \
+                plus every wrong length-field value (checksum made consistent), every wrong checksum value, strings with more than 255 data bytes whose count agrees with the length field modulo 256, and (through Frame::read) a damaged line read after a failed read left a partial line behind; a damaged string is non-trivial when it still has the documented \
                 shape (the reference parser does not call it malformed), i.e. it survives the structural check and is decided by length/checksum; distinct by wire bytes"
         .into();
     rep.trusted_base = vec!["refmodel::ref_encode".into(), "refmodel::ref_parse (only to classify non-trivial cases, not for the verdict)".into()];
@@ -281,9 +309,41 @@ pub fn run(ctx: &Ctx) -> Report {
     for a in accs {
         all.merge(ID, a);
     }
+    // read path with history: every prefix (1..=6 bytes) of three valid lines is left behind by a failed read; then each
+    // base line with its first byte replaced by every other value is read on the same thread
+    let prefix_sources: Vec<Vec<u8>> = vec![ref_encode(0xFE00, 0, &[7, 3], true), ref_encode(0x0003, 2, &[0xFF], true), ref_encode(0x00FD, 0, &[0, 0x7F, 2], true)];
+    let second_lines: Vec<(u16, u8, Vec<u8>)> = vec![(0x0007, 3, vec![]), (0x007F, 2, vec![]), (0x0003, 2, vec![0xFF]), (0x0010, 0, vec![1, 2, 3])];
+    let mut hjobs: Vec<(Vec<u8>, usize, u8)> = vec![];
+    for ps in &prefix_sources {
+        for l in 1..=6usize.min(ps.len()) {
+            for (bi, _) in second_lines.iter().enumerate() {
+                for v in 0..=255u8 {
+                    if v != b':' {
+                        hjobs.push((ps[..l].to_vec(), bi, v));
+                    }
+                }
+            }
+        }
+    }
+    let accs = par_range(hjobs.len() as u64, 64, Acc::default, |acc, i| {
+        let (ref prefix, bi, v) = hjobs[i as usize];
+        let (a, t, ref d) = second_lines[bi];
+        let mut line = ref_encode(a, t, d, true);
+        line[0] = v;
+        acc.evals += 1;
+        acc.outcomes.add("read-after-failed-read");
+        acc.nontrivial_fp.push((1u64 << 60) | i);
+        if let Some((clause, class, detail)) = check_read_after_failed_read(prefix, (a, t, d), &line) {
+            acc.violation(ID, Violation::new(clause, class, detail, json!({"kind": "read-history", "prefix": hex(prefix), "addr": a, "type": t, "data": hex(d), "line": hex(&line)}), (1u64 << 50) | i));
+        }
+    });
+    for a in accs {
+        all.merge(ID, a);
+    }
     let nt = rep.absorb(all);
     rep.states = nt;
     rep.transitions = rep.evaluations;
+    rep.set("read_path_history_sequences", json!(hjobs.len()));
     rep.set("base_frames", json!(bases.len()));
     rep.set("encodings_per_frame", json!(2));
     rep.set("longest_wire_string", json!(bases.iter().map(|b| 13 + 2 * b.2.len()).max()));
@@ -297,6 +357,11 @@ pub fn run(ctx: &Ctx) -> Report {
 }
 
 pub fn replay(_ctx: &Ctx, case: &Value) -> Result<Vec<Violation>, String> {
+    if case["kind"].as_str() == Some("read-history") {
+        let d = unhex(case["data"].as_str().ok_or("data")?);
+        let v = check_read_after_failed_read(&unhex(case["prefix"].as_str().ok_or("prefix")?), (case["addr"].as_u64().ok_or("addr")? as u16, case["type"].as_u64().ok_or("type")? as u8, &d), &unhex(case["line"].as_str().ok_or("line")?));
+        return Ok(v.into_iter().map(|(c, k, d)| Violation::new(c, k, d, case.clone(), 0)).collect());
+    }
     if case["kind"].as_str() != Some("damaged") {
         return Err("unknown case kind".into());
     }
